@@ -54,6 +54,29 @@ def circuits(rng, n_extra=0):
     return out
 
 
+def verifier_header_variants(lines, limit=2):
+    """the same proof and public inputs against a verifier whose serialized header declares ANOTHER circuit size / constraint
+    count (both are part of the statement: they go into the transcript): +1, doubled, and shifted by multiples of 2^32 / 2^16
+    (a size absorbed in a narrower integer type). Each must be refused (by the decoder or by verification)."""
+    out = []
+    honest = [l for l in lines if l.split(" ", 1)[0] == "expect-ok:honest"][:limit]
+    for l in honest:
+        toks = l.split(" ")
+        vb = bytes.fromhex(toks[4])
+        for (name, off) in (("size", 32), ("constraints", 40)):
+            old = int.from_bytes(vb[off:off + 8], "big")
+            for what, new in (("plus-1", old + 1), ("doubled", old * 2), ("plus-2^32", old + (1 << 32)), ("plus-2^33", old + (1 << 33)),
+                              ("plus-2^16", old + (1 << 16)), ("plus-2^63", old + (1 << 63))):
+                if new >= (1 << 64) or new == old:
+                    continue
+                v2 = vb[:off] + new.to_bytes(8, "big") + vb[off + 8:]
+                # `constraints` is part of the statement (it is absorbed into the transcript); the redundant `size` field is not
+                # used by verification at all (the domain comes from the key's n): for it only model == implementation is required
+                tag = "expect-reject" if name == "constraints" else "any"
+                out.append("%s:verifier-header-%s-%s %s" % (tag, name, what, " ".join(toks[1:4] + [v2.hex()] + toks[5:])))
+    return out
+
+
 def impl_challenges(ctx, verify_reqs):
     """the challenges the REAL verifier derives for `verify …` requests (hook verif::take_verifier_challenges, harness command
     `vchals`): list of dicts name -> int (empty dict when the verifier did not get that far). Forgeries are built for THESE
